@@ -70,10 +70,9 @@ class TxFetcher:
                 raise ValueError(f"unexpected response: {response}")
             tx = Tx.parse(BytesIO(raw), network=network)
             # make sure the tx we got matches to the hash we requested
-            if tx.segwit:
-                computed = tx.id()
-            else:
-                computed = hash256(raw)[::-1].hex()
+            # (hash of what the parsed tx serializes to, not of the raw response,
+            # which may have trailing bytes or a non-canonical encoding)
+            computed = tx.id()
             if computed != tx_id:
                 raise RuntimeError(f"server lied: {computed} vs {tx_id}")
             cls.cache[tx_id] = tx
